@@ -1,14 +1,61 @@
-(* Props/C13.v -- placeholder until the parser proofs land: entry points agree definitionally. *)
-From JsonSyntax Require Import Base.Prelude Base.Value Base.Unicode Model.Parser Model.EntryPoints.
+(* Props/C13.v -- pretty-print layout follows the documented options and limits exactly.
+   Statements only.  Reference layout: Spec/Layout.v (written from the field documentation;
+   width = number of characters of the one-line text; empty containers use the `empty`
+   spacing).  Holds for EVERY option record and EVERY value. *)
+From JsonSyntax Require Import Base.Prelude Base.Value Model.Printer Spec.Grammar Spec.Layout
+  Proofs.PrinterProofs Proofs.PrinterTheorems.
 
-Theorem C13_entry_points_text : forall cs,
-  parse_str cs = parse_str_with strict cs /\
-  parse_str cs = parse_utf8 cs /\
-  parse_str cs = parse_utf8_with strict cs /\
-  parse_str cs = parse_infallible_utf8 cs /\
-  parse_str cs = parse_utf8_infallible_with strict cs /\
-  parse_str cs = parse (chars cs) /\
-  parse_str cs = parse_with strict (chars cs).
-Proof. exact (fun cs => conj eq_refl (conj eq_refl (conj eq_refl (conj eq_refl (conj eq_refl (conj eq_refl eq_refl)))))). Qed.
+Theorem C13_print_is_layout : forall o v, print_with o v = Some (layout_text o v).
+Proof. exact C13_layout. Qed.
 
-Print Assumptions C13_entry_points_text.
+(* the pre-pass and the emission run in lock-step: `sizes[*index]` never goes out of bounds *)
+Theorem C13_sizes_lockstep : forall o v sizes0 ind extra,
+  let '(sz, sizes1) := pre_compute_size o v sizes0 in
+  exists t, fmt_with_size o v ind (sizes1 ++ extra) (length sizes0) = Some (t, length sizes1).
+Proof. exact sizes_lockstep. Qed.
+
+(* width is the number of characters actually printed; Expanded means a line break was printed *)
+Theorem C13_width_is_length : forall o v sizes0 ind extra sz sizes1 t idx,
+  pre_compute_size o v sizes0 = (sz, sizes1) ->
+  fmt_with_size o v ind (sizes1 ++ extra) (length sizes0) = Some (t, idx) ->
+  match sz with
+  | Width w => w = N.of_nat (length t) /\ (nums_no_lf v -> ~ In 0x0A t)
+  | Expanded => In 0x0A t
+  end.
+Proof. exact width_is_length_partial. Qed.
+
+(* the inline and compact presets (no limits) never emit a line break.  The hypothesis
+   excludes only values holding a "number" that contains a raw line feed, which no valid
+   JSON number does (C13_jnum_no_lf); without it the statement is false (C13_no_break_needs_it) *)
+Theorem C13_no_break : forall o v, array_limit o = None -> object_limit o = None -> nums_no_lf v ->
+  ~ In 0x0A (layout_text o v).
+Proof. exact no_break_partial. Qed.
+Theorem C13_jnum_no_lf : forall n, jnum n -> ~ In LF n.
+Proof. exact jnum_no_lf. Qed.
+Theorem C13_no_break_needs_it : ~ no_break_statement.
+Proof. exact no_break_statement_false. Qed.
+Theorem C13_inline_never_breaks : forall v, nums_no_lf v -> exists t, print_with inline v = Some t /\ ~ In 0x0A t.
+Proof. exact inline_never_breaks. Qed.
+Theorem C13_compact_never_breaks : forall v, nums_no_lf v -> exists t, print_with compact v = Some t /\ ~ In 0x0A t.
+Proof. exact compact_never_breaks. Qed.
+
+(* the witnesses of the two repaired defects now lay out as documented *)
+Example C13_example :
+  let o := {| p_indent := ISpaces 2; array_begin := 3; array_end := 3; array_empty := 0;
+              array_before_comma := 0; array_after_comma := 0; array_limit := Some (LWidth 10);
+              object_begin := 0; object_end := 0; object_empty := 0; object_before_comma := 0;
+              object_after_comma := 0; object_before_colon := 0; object_after_colon := 0;
+              object_limit := None |} in
+  print_with o (VArr [VNum [0x31]; VNum [0x32]]) = Some (s2l "[" ++ [0x0A] ++ s2l "  1," ++ [0x0A] ++ s2l "  2" ++ [0x0A] ++ s2l "]")
+  /\ print_with o (VArr []) = Some (s2l "[]").
+Proof. vm_compute. split; reflexivity. Qed.
+
+Print Assumptions C13_print_is_layout.
+Print Assumptions C13_sizes_lockstep.
+Print Assumptions C13_width_is_length.
+Print Assumptions C13_no_break.
+Print Assumptions C13_jnum_no_lf.
+Print Assumptions C13_no_break_needs_it.
+Print Assumptions C13_inline_never_breaks.
+Print Assumptions C13_compact_never_breaks.
+Print Assumptions C13_example.
